@@ -623,10 +623,12 @@ def depth_varying_tokens():
 def enum_depth_pairs(triples=False):
     toks = depth_varying_tokens()
     glues = [[], [("sep",)]]
+    leads = [[], [("sep",)], [("tree", False, True)]]     # relative, rooted, behind a tree wildcard
     for x in toks:
         for g in glues:
             for y in toks:
-                yield normalize(x + g + y)
+                for lead in leads:
+                    yield normalize(lead + x + g + y)
                 if triples:
                     for g2 in glues:
                         for z in toks[:6]:
